@@ -68,6 +68,9 @@ func main() {
 			}(c, i)
 		}
 		wg.Wait()
+		if r.Replay == nil && r.Counter("successful runs satisfying every post-condition") < int64(r.Pick(200, 4000)) {
+			r.Inconclusive("too few successful runs were observed")
+		}
 		r.Floor(int64(r.Pick(600, 12000)), int64(r.Pick(100, 2000)))
 	})
 }
@@ -219,7 +222,8 @@ func history(r *ev.Run, c *ev.Case, hi int) {
 			continue
 		}
 		if runErr != nil {
-			bad("planned-success-fails", runErr.Error())
+			// the post-conditions are conditional on a successful run
+			r.Count("planned successes that failed (not a violation; history abandoned)", 1)
 			return
 		}
 		if len(signer.Calls) != 1 || signer.Calls[0].Certs == nil {
